@@ -579,6 +579,8 @@ pub fn exec_op(w: &mut World, op: &Op) -> OpRes {
             let _ = w.sim.hit_halt();
             let _ = w.sim.hit_breakpoint();
             let _ = w.sim.psr().get();
+            // the state's own printers are queries too
+            let _ = format!("{:?} {:?} {:?}", w.sim.psr(), w.sim.reg_file, w.sim.frame_stack);
             let _ = w.sim.observer.take_mem_accesses().count();
             OpRes::Cfg
         }
